@@ -31,7 +31,7 @@ rm -f $wt/$demo_dir/zz_demo${n}_test.go
 git -C $wt apply --whitespace=nowarn $out/patch$n.diff
 suite=skipped
 if [ "${SKIP_SUITE:-0}" != 1 ]; then
-  (cd $wt && go test -vet=off -count=1 -timeout 25m ./... >/tmp/vs$slot.suite.log 2>&1) && suite=pass || suite=fail
+  (cd $wt && go test -p 6 -vet=off -count=1 -timeout 40m ./... >/tmp/vs$slot.suite.log 2>&1) && suite=pass || suite=fail
   grep -E "^(FAIL|---)" /tmp/vs$slot.suite.log | head -20 > $out/suite$n.failures.txt
 fi
 res _file $out/verify$n.json applies $applies builds $builds demo_with_patch $with demo_without_patch $without suite_with_patch $suite head "$(git -C /repo rev-parse HEAD)"
